@@ -18,7 +18,11 @@ CHECKS = {
              "(ensemble with bounds) admit NO reverse move at exact rational witnesses (Properties/C01Oblique.v: known finding); "
              "the on-line tuning of widths / step size keeps every width positive, clamps every factor, moves towards the target "
              "rate and never shrinks the check interval (Properties/Adaptation.v, tied by exact bookkeeping comparison and interval "
-             "goals on real Parameter / EpsilonSelector objects). Every recorded transition of the five real samplers (every proposal point, accept and "
+             "goals on real Parameter / EpsilonSelector objects); mass consistency (Properties/C01Mass.v: L^T M^-1 L = I implies "
+             "K(Lz) = z.z/2 for any dimension and all three mass kinds, so exp(H0-H) is the MH probability for the momentum "
+             "actually drawn; transposed factor refuted), guarded on every recorded Hamiltonian transition incl. full SPD masses "
+             "and masses from estimate_mass; every sampler is also driven with list / tuple / int64 / int32 / float32 inputs. "
+             "Every recorded transition of the five real samplers (every proposal point, accept and "
              "reject branch, tempering, bounds) is replayed through Model/Samplers.v inside Coq. Not proved: the ergodic limit, "
              "P(U<p)=p, the stretch Jacobian, HMC detailed balance in the continuum, effect of adaptation.",
         note="Trusted: Coq kernel + vm_compute; Reals axioms (sig_forall_dec, sig_not_dec, functional_extensionality_dep, classic); "
